@@ -35,6 +35,8 @@ func runC33(c *Ctx) {
 	r.Rule("C33.R3", "the segment count byte and every lacing value fit a byte: the segment table is only grown inside a loop guarded by len(table) < 255 and every lacing value is 255 or a remainder below 255", 3)
 	r.Rule("C33.R5", "granule arithmetic: opusSamplesPerFrame equals RFC 6716 Table 2 for all 256 TOC bytes; opusPacketFrameCount equals RFC 6716 section 3.2 for every (TOC, length, count byte); the per-packet count is their product on the packet's own TOC byte and is the only thing the granule position advances by", 38)
 	r.Rule("C33.R6", "last-page bookkeeping: every track field from which markTrackEndOfStream rebuilds the last page is recorded, in writePage's page loop, from fields of the page value that was just written", 4)
+	r.Rule("C33.R7", "createPagesForSerial tiles the packet: the page payload is payload[off:off+n], every write of off after its initialisation is off += n, one lies on every path from one slicing to the next, and n is not rewritten in between (joining continued pages yields the written packet)", 1)
+	r.Rule("C33.R8", "ownership of per-stream OpusTags: the value stored into oggTrack.opusTags is fresh (cloning/default constructor, a private config object whose own tags are fresh, or a parameter every call site of which passes a fresh value): in-place comment appends by track options never reach another stream's header", 1)
 	r.Rule("C33.R4", "header-type flags, tabulated over (requested type, first page, packet complete): first complete page keeps the requested flags, a first incomplete page drops EOS, later pages carry the continuation flag and EOS only when they complete the packet, BOS never appears on a later page; the BOS constant is passed exactly with the OpusHead payload; every Close path of a started writer emits EOS through markTrackEndOfStream / writeNilEndOfStreamPage", 5)
 	r.NotCovered = append(r.NotCovered, "page sequence numbering across packets and tracks", "packet reassembly from continued pages in the reader")
 	r.Trusted = append(r.Trusted, "RFC 3533 §6 page header, RFC 7845 §5.1/§5.2 OpusHead/OpusTags as transcribed in props/c33.go", "core/eval semantics; guard-dominance argument of core/guards.go")
@@ -52,6 +54,8 @@ func runC33(c *Ctx) {
 	}
 	c33R5(c)
 	c33R6(c)
+	c33R7(c) // c33c.go
+	c33R8(c)
 }
 
 // ---------- R1: page header ----------
